@@ -16,22 +16,24 @@ Notation gref := (get_ref B).
 Notation len := (len B).
 
 (** same fidRefs, same parent links *)
-Definition pveq (s s' : st) : Prop := len s' = len s /\ forall q, fr_parent (gref s' q) = fr_parent (gref s q).
+Definition pveq (s s' : st) : Prop :=
+  len s' = len s /\ forall q, fr_parent (gref s' q) = fr_parent (gref s q) /\ fr_xattrOf (gref s' q) = fr_xattrOf (gref s q).
 (** old parent links kept; each new fidRef's parent is older than itself *)
 Definition grow (s s' : st) : Prop :=
-  len s <= len s' /\ (forall q, q < len s -> fr_parent (gref s' q) = fr_parent (gref s q)) /\
-  (forall q p, len s <= q -> q < len s' -> fr_parent (gref s' q) = Some p -> p < q).
+  len s <= len s' /\
+  (forall q, q < len s -> fr_parent (gref s' q) = fr_parent (gref s q) /\ fr_xattrOf (gref s' q) = fr_xattrOf (gref s q)) /\
+  (forall q p, len s <= q -> q < len s' -> fr_parent (gref s' q) = Some p \/ fr_xattrOf (gref s' q) = Some p -> p < q).
 Definition ordered_all (s : st) : Prop := forall r p, r < len s -> fr_parent (gref s r) = Some p -> p < r.
 
 Lemma pveq_refl s : pveq s s. Proof. split; auto. Qed.
 Lemma pveq_trans a b c : pveq a b -> pveq b c -> pveq a c.
-Proof. intros (L1 & P1) (L2 & P2). split; [congruence|]. intros q. rewrite P2. apply P1. Qed.
+Proof. intros (L1 & P1) (L2 & P2). split; [congruence|]. intros q. destruct (P1 q), (P2 q). split; congruence. Qed.
 Lemma pveq_sc s s' : same_core B s s' -> pveq s s'.
 Proof. intros (_ & _ & R & _). unfold pveq, LifeProofs.len, get_ref. rewrite R. auto. Qed.
 Lemma pveq_keeps s s' : keeps B s s' -> pveq s s'.
-Proof. intros K. pose proof K as (_&_&_&L&_&_). split; [exact L|]. intros q. apply (keeps_field B); auto. Qed.
-Lemma pveq_with_held h s : pveq s (with_held B h s). Proof. split; reflexivity. Qed.
-Lemma pveq_with_fids f s : pveq s (with_fids B f s). Proof. split; reflexivity. Qed.
+Proof. intros K. pose proof K as (_&_&_&L&_&_). split; [exact L|]. intros q. split; apply (keeps_field B); auto. Qed.
+Lemma pveq_with_held h s : pveq s (with_held B h s). Proof. split; [reflexivity | intros; split; reflexivity]. Qed.
+Lemma pveq_with_fids f s : pveq s (with_fids B f s). Proof. split; [reflexivity | intros; split; reflexivity]. Qed.
 Lemma pveq_incref r s : pveq s (incref B r s). Proof. apply pveq_keeps, keeps_set_refs. Qed.
 Lemma pveq_hold r s : pveq s (hold B r s).
 Proof. unfold hold. eapply pveq_trans; [apply pveq_incref | apply pveq_with_held]. Qed.
@@ -50,11 +52,11 @@ Proof.
   unfold delete_fid. destruct (alookup peqb (c, fid) (s_fids B s)); [|apply pveq_refl].
   eapply pveq_trans; [apply pveq_with_fids | apply pveq_decref_].
 Qed.
-Lemma pveq_set_field r x' s : fr_parent x' = fr_parent (gref s r) -> pveq s (set_ref B r x' s).
+Lemma pveq_set_field r x' s : fr_parent x' = fr_parent (gref s r) -> fr_xattrOf x' = fr_xattrOf (gref s r) -> pveq s (set_ref B r x' s).
 Proof.
-  intros E. split; [apply len_set_ref|]. intros q. destruct (Nat.eq_dec r q) as [<-|N]; [|rewrite gref_set_other; auto].
+  intros E E'. split; [apply len_set_ref|]. intros q. destruct (Nat.eq_dec r q) as [<-|N]; [|rewrite gref_set_other; auto].
   destruct (Nat.lt_ge_cases r (length (s_refs B s))) as [L|L]; [rewrite gref_set_same; auto|].
-  unfold set_ref. rewrite upd_oob by auto. destruct s; reflexivity.
+  unfold set_ref. rewrite upd_oob by auto. destruct s; split; reflexivity.
 Qed.
 Lemma pveq_gc r g c s : pveq s (snd (guarded_call B bstep r g c s)).
 Proof. apply pveq_sc, sc_guarded_call. Qed.
@@ -71,23 +73,26 @@ Lemma grow_refl s : grow s s. Proof. repeat split; auto; intros; lia. Qed.
 Lemma grow_trans a b c : grow a b -> grow b c -> grow a c.
 Proof.
   intros (L1 & O1 & P1) (L2 & O2 & P2). split; [lia|]. split.
-  - intros q Hq. rewrite O2 by lia. apply O1; auto.
+  - intros q Hq. destruct (O1 q Hq), (O2 q ltac:(lia)). split; congruence.
   - intros q p Hq Hq' Hp. destruct (Nat.lt_ge_cases q (len b)) as [Lt|Ge].
-    + rewrite O2 in Hp by auto. apply (P1 q p Hq Lt Hp).
+    + destruct (O2 q Lt) as (E1 & E2). rewrite E1, E2 in Hp. apply (P1 q p Hq Lt Hp).
     + apply (P2 q p Ge Hq' Hp).
 Qed.
 Lemma grow_pveq s s' : pveq s s' -> grow s s'.
 Proof. intros (L & P). split; [lia|]. split; [intros; apply P | intros; lia]. Qed.
 Lemma grow_shape s s' : shape B s s' -> grow s s'.
-Proof. intros (_ & L & O & P & _). split; [exact L|]. split; [intros q Hq; apply (O q Hq) | exact P]. Qed.
-Lemma grow_new_ref x s : (forall p, fr_parent x = Some p -> p < len s) -> grow s (snd (new_ref B x s)).
+Proof.
+  intros (_ & L & O & P & X). split; [exact L|]. split; [intros q Hq; destruct (O q Hq) as (?&?&?); auto|].
+  intros q p Hq Hq' [Hp|Hp]; [apply (P q p Hq Hq' Hp) | rewrite (X q Hq Hq') in Hp; discriminate].
+Qed.
+Lemma grow_new_ref x s : (forall p, fr_parent x = Some p \/ fr_xattrOf x = Some p -> p < len s) -> grow s (snd (new_ref B x s)).
 Proof.
   intros HP. destruct (new_ref_facts B x s) as (_ & L1 & Gn & Go & _).
   unfold grow, LifeProofs.len in *. rewrite L1. split; [lia|]. split.
-  - intros q Hq. rewrite Go by auto. reflexivity.
+  - intros q Hq. rewrite Go by auto. split; reflexivity.
   - intros q p Hq Hq' Hp. assert (q = length (s_refs B s)) by lia. subst q. rewrite Gn in Hp. cbn in Hp. apply HP; auto.
 Qed.
-Lemma grow_new_ref_inc x s : (forall p, fr_parent x = Some p -> p < len s) -> grow s (snd (new_ref_inc B x s)).
+Lemma grow_new_ref_inc x s : (forall p, fr_parent x = Some p \/ fr_xattrOf x = Some p -> p < len s) -> grow s (snd (new_ref_inc B x s)).
 Proof.
   intros HP. unfold new_ref_inc. pose proof (grow_new_ref x s HP) as G.
   destruct (new_ref B x s) as [nr s1]. cbn [snd] in *.
@@ -98,20 +103,25 @@ Qed.
 Lemma ordered_grow s s' : grow s s' -> ordered_all s -> ordered_all s'.
 Proof.
   intros (L & O & P) Ord r p Hr Hp. destruct (Nat.lt_ge_cases r (len s)) as [Lt|Ge].
-  - rewrite O in Hp by auto. apply (Ord r p Lt Hp).
-  - apply (P r p Ge Hr Hp).
+  - destruct (O r Lt) as (E & _). rewrite E in Hp. apply (Ord r p Lt Hp).
+  - apply (P r p Ge Hr). left; exact Hp.
 Qed.
 
 Definition fid_bound (s : st) : Prop := forall r, In r (map snd (s_fids B s)) -> r < len s.
+Definition pbound (s : st) : Prop := forall r p, r < len s -> fr_parent (gref s r) = Some p -> p < len s.
+Lemma pbound_pveq s s' : pveq s s' -> pbound s -> pbound s'.
+Proof. intros (L & P) H r p Hr Hp. destruct (P r) as (E & _). rewrite E in Hp. rewrite L in *. apply (H r p Hr Hp). Qed.
+Lemma pbound_ordered s : ordered_all s -> pbound s.
+Proof. intros Ord r p Hr Hp. specialize (Ord r p Hr Hp). lia. Qed.
 
 Lemma grow_with_fid c fid body s :
-  fid_bound s -> ordered_all s ->
-  (forall r s0, r < len s0 -> ordered_all s0 -> grow s0 (snd (body r s0))) -> grow s (snd (with_fid B bstep c fid body s)).
+  fid_bound s -> pbound s ->
+  (forall r s0, r < len s0 -> pbound s0 -> grow s0 (snd (body r s0))) -> grow s (snd (with_fid B bstep c fid body s)).
 Proof.
   intros Fb Ord H. unfold with_fid, lookup_fid. destruct (alookup peqb (c, fid) (s_fids B s)) as [r|] eqn:E; [|apply grow_refl].
   assert (Hr : r < len s) by (apply Fb; apply (alookup_in peqb peqb_spec _ _ _ E)).
   pose proof (pveq_hold r s) as PH.
-  specialize (H r (hold B r s) ltac:(destruct PH as (L & _); lia) (ordered_grow _ _ (grow_pveq _ _ PH) Ord)).
+  specialize (H r (hold B r s) ltac:(destruct PH as (L & _); lia) (pbound_pveq _ _ PH Ord)).
   destruct (body r (hold B r s)) as [rep s2]. cbn [snd] in *.
   eapply grow_trans; [apply grow_pveq, PH|]. eapply grow_trans; [exact H | apply grow_pveq, pveq_release].
 Qed.
@@ -186,7 +196,7 @@ Qed.
 Lemma pv_xattrcreate c fid s : pveq s (snd (do_xattrcreate B bstep c fid s)).
 Proof.
   unfold do_xattrcreate. apply pveq_with_fid. intros r s0. destruct (is_deleted B s0 r); [apply pveq_refl|].
-  apply pveq_set_field. reflexivity.
+  apply pveq_set_field; reflexivity.
 Qed.
 Lemma pv_stop_loop l c : forall s, pveq s (stop_loop B bstep l c s).
 Proof.
@@ -196,11 +206,11 @@ Qed.
 
 (** ---- the requests that create fidRefs ---- *)
 Lemma gr_walk_op c fid newfid names g s :
-  fid_bound s -> ordered_all s -> grow s (snd (do_walk_op B bstep c fid newfid names g s)).
+  fid_bound s -> pbound s -> grow s (snd (do_walk_op B bstep c fid newfid names g s)).
 Proof.
   intros Fb Ord. unfold do_walk_op. apply grow_with_fid; auto. intros r s0 Hr Ord0.
   destruct (fr_opened (gref s0 r) && (fid =? newfid)); [apply grow_refl|].
-  assert (HP : forall p, fr_parent (gref s0 r) = Some p -> p < len s0) by (intros p Hp; specialize (Ord0 r p Hr Hp); lia).
+  assert (HP : forall p, fr_parent (gref s0 r) = Some p -> p < len s0) by (intros p Hp; apply (Ord0 r p Hr Hp)).
   pose proof (grow_shape _ _ (do_walk_shape B bstep r names g s0 Hr HP)) as G.
   destruct (do_walk B bstep r names g s0) as [res s1]. cbn [snd] in G. destruct res as [e|nr]; [exact G|]. cbn [snd].
   eapply grow_trans; [exact G|]. apply grow_pveq. eapply pveq_trans; [apply pveq_insert | apply pveq_release].
@@ -226,7 +236,7 @@ Proof.
           end
       end) -> grow s (snd rs)).
   { pose proof (grow_pveq _ _ (pveq_sc _ _ (sc_take_handle B s0))) as Gt.
-    assert (Gn : grow (take_handle B s0) (snd (new_ref B x (take_handle B s0)))) by (apply grow_new_ref; intros p Hp; discriminate).
+    assert (Gn : grow (take_handle B s0) (snd (new_ref B x (take_handle B s0)))) by (apply grow_new_ref; intros p [Hp|Hp]; discriminate).
     destruct (new_ref_facts B x (take_handle B s0)) as (E2 & L2 & Gnew & _).
     destruct (new_ref B x (take_handle B s0)) as [root s2]. cbn [fst snd] in *.
     bc H3.
@@ -247,7 +257,7 @@ Proof.
       pose proof (pveq_trans _ _ _ H3 S4) as S24.
       assert (Hr4 : root < len s4) by (destruct S24 as (L & _); lia).
       assert (P4 : forall p, fr_parent (gref s4 root) = Some p -> p < len s4).
-      { intros p Hp. destruct S24 as (_ & O). rewrite O, E2, Gnew in Hp. discriminate. }
+      { intros p Hp. destruct S24 as (_ & O). destruct (O root) as (EO & _). rewrite EO, E2, Gnew in Hp. discriminate. }
       pose proof (grow_trans _ _ _ G03 (grow_pveq _ _ S4)) as G04.
       destruct names as [|nm rest].
       - cbn [snd]. eapply grow_trans; [exact G04|]. apply grow_pveq. eapply pveq_trans; [apply pveq_insert | apply pveq_release].
@@ -265,7 +275,7 @@ Proof.
 Qed.
 
 Lemma gr_create c fid nm fl s :
-  fid_bound s -> ordered_all s -> grow s (snd (do_create B bstep c fid nm fl s)).
+  fid_bound s -> pbound s -> grow s (snd (do_create B bstep c fid nm fl s)).
 Proof.
   intros Fb Ord. unfold do_create. apply grow_with_fid; auto. intros r s0 Hr _.
   destruct (dir_guard B s0 r); [apply grow_refl|]. cbv zeta.
@@ -274,7 +284,7 @@ Proof.
     destruct (path_node_for B (fr_node (gref s0 r)) nm (take_handle B s1)) as [cn s2]; cbn [snd] in H2;
     pose proof (pveq_trans _ _ _ H1 H2) as H02;
     set (x := mkref (s_nexth B s0) 0 true fl MReg cn (Some r) None XNone);
-    assert (G3 : grow s2 (snd (new_ref_inc B x s2))) by (apply grow_new_ref_inc; intros p [= <-]; destruct H02 as (L & _); lia);
+    assert (G3 : grow s2 (snd (new_ref_inc B x s2))) by (apply grow_new_ref_inc; intros p [[= <-]|[=]]; destruct H02 as (L & _); lia);
     destruct (new_ref_inc B x s2) as [nr s3]; cbn [snd] in G3;
     pose proof (grow_trans _ _ _ (grow_pveq _ _ H02) (grow_trans _ _ _ G3 (grow_pveq _ _ (pveq_sc _ _ (sc_add_child B (fr_node (gref s0 r)) nr nm s3))))) as G4;
     destruct (s_panic B (add_child B (fr_node (gref s0 r)) nr nm s3)); cbn [snd]; [exact G4|];
@@ -282,13 +292,13 @@ Proof.
 Qed.
 
 Lemma gr_xattrwalk c fid newfid s :
-  fid_bound s -> ordered_all s -> grow s (snd (do_xattrwalk B bstep c fid newfid s)).
+  fid_bound s -> pbound s -> grow s (snd (do_xattrwalk B bstep c fid newfid s)).
 Proof.
   intros Fb Ord. unfold do_xattrwalk. apply grow_with_fid; auto. intros r s0 Hr _.
   destruct (is_deleted B s0 r); [apply grow_refl|]. cbv zeta.
   bc H1. destruct b as [m ino|e|m ino]; try (apply grow_pveq; exact H1).
   all: match goal with |- context [new_ref_inc B ?x ?s1] =>
-         assert (G3 : grow s1 (snd (new_ref_inc B x s1))) by (apply grow_new_ref_inc; intros p Hp; discriminate);
+         assert (G3 : grow s1 (snd (new_ref_inc B x s1))) by (apply grow_new_ref_inc; intros p [[=]|[= <-]]; destruct H1 as (L & _); lia);
          destruct (new_ref_inc B x s1) as [nr s2] end; cbn [snd] in *;
        (eapply grow_trans; [apply grow_pveq; exact H1|]); (eapply grow_trans; [exact G3|]);
        apply grow_pveq; (eapply pveq_trans; [apply pveq_insert | apply pveq_release]).
@@ -298,7 +308,7 @@ Qed.
 Definition no_rename (o : op) : Prop :=
   match o with ORename _ _ _ _ | ORenameAt _ _ _ _ _ => False | _ => True end.
 
-Lemma step_grow o s : no_rename o -> fid_bound s -> ordered_all s -> grow s (snd (step B bstep o s)).
+Lemma step_grow o s : no_rename o -> fid_bound s -> pbound s -> grow s (snd (step B bstep o s)).
 Proof.
   intros NR Fb Ord. destruct o; cbn [step]; try contradiction.
   - apply gr_attach.
@@ -328,7 +338,7 @@ Lemma run_ordered ops : forall s, Forall no_rename ops -> RefInv B s -> ordered_
 Proof.
   induction ops as [|o ops IH]; intros s NR I Ord; cbn [run]; [exact Ord|].
   inversion NR as [|? ? N1 N2]; subst.
-  pose proof (step_grow o s N1 (fid_bound_inv s I) Ord) as G.
+  pose proof (step_grow o s N1 (fid_bound_inv s I) (pbound_ordered s Ord)) as G.
   destruct (RefStep.step_ok B bstep o s [] I ltac:(intros x [])) as (I1 & _).
   destruct (step B bstep o s) as [rep s1]. cbn [snd] in *.
   specialize (IH s1 N2 I1 (ordered_grow _ _ G Ord)). destruct (run B bstep ops s1) as [reps s2]. exact IH.
